@@ -355,10 +355,17 @@ void do_pop_ops(int thread, const ThreadPlan& plan) {
         int64_t pushed_before = W->push_inflight == 0 ? size0 : 0;
         size_t r = 0;
         int pos = 0;
-        auto cb = [&](Iter b, Iter e) { for (; b != e; ++b) rec_pop(drain(*b), pos++); };
+        // the deadline bounds the wait, not the time the client's own callback takes: stop the watch when the
+        // first callback starts (or at the return when nothing was delivered)
+        int64_t t_wait_end = -1;
+        auto cb = [&](Iter b, Iter e) {
+          if (t_wait_end < 0) t_wait_end = dsched::now_ns();
+          for (; b != e; ++b) rec_pop(drain(*b), pos++);
+        };
         if (op.wake) r = q.template try_pop_n_exclusively_until<true>(cb, (size_t)n, &to);
         else r = q.template try_pop_n_exclusively_until<false>(cb, (size_t)n, &to);
-        int64_t dt = dsched::now_ns() - t0;
+        if (t_wait_end < 0) t_wait_end = dsched::now_ns();
+        int64_t dt = t_wait_end - t0;
         int64_t limit = (int64_t)op.timeout_us * 1000 + 2000000 + 200000;
         if (dt > limit) dsched::fail("timed-pop", "timed exclusive pop returned after %ld ns, timeout %d us", (long)dt, op.timeout_us);
         if (r > (size_t)n) dsched::fail("timed-pop", "timed pop returned %zu > %d", r, n);
